@@ -24,7 +24,7 @@ func init() {
 		rng := rand.New(rand.NewSource(seed*911 + 16))
 		reps := 2
 		if tier == "thorough" {
-			reps = 30
+			reps = 100
 		}
 		for r := 0; r < reps; r++ {
 			for _, shape := range srvShapes {
